@@ -34,4 +34,23 @@ IsLongMO(esm) == esm \div 64 = 1
 LB == 12304   RB == 12305   LS == 91   RS == 93
 NoBrackets(s) == \A i \in 1..Len(s) : s[i] \notin {LB, RB, LS, RS}
 Signed(l, r, sig, body, prefix) == IF prefix THEN <<l>> \o sig \o <<r>> \o body ELSE body \o <<l>> \o sig \o <<r>>
+
+\* ---- the data-coding registry (datacoding/codec_cmpp.go, codec_smpp.go): which numbers are codings of a protocol, what
+\*      goes on the wire for them, which text codec stands behind them, and the preference order of the batch encoder
+\*      (Batch!PrioSeq: an earlier entry has the smaller Priority()).  99 is the library's own number for packed GSM 7-bit;
+\*      on the wire it is 0.  An undefined number: wire value 255, name UNKNOWN, no codec (Get*Codec: UCS-2 instead).
+RegOrder(proto) == IF proto = "CMPP" THEN <<9, 8, 15, 0>> ELSE <<8, 0, 3, 1, 99>>
+RegValid(proto) == { RegOrder(proto)[i] : i \in 1..Len(RegOrder(proto)) }
+RegRank(proto, c) == CHOOSE i \in 1..Len(RegOrder(proto)) : RegOrder(proto)[i] = c
+RegWire(proto, c) == IF c \notin RegValid(proto) THEN 255 ELSE IF proto = "SMPP" /\ c = 99 THEN 0 ELSE c
+RegName(proto, c) ==
+  IF c \notin RegValid(proto) THEN "UNKNOWN"
+  ELSE IF proto = "CMPP" THEN (CASE c = 0 -> "ASCII" [] c = 8 -> "UCS2" [] c = 9 -> "UCS2_NO_SIGN" [] c = 15 -> "GBK")
+  ELSE (CASE c = 0 -> "GSM7_UNPACKED" [] c = 99 -> "GSM7_PACKED" [] c = 1 -> "ASCII" [] c = 3 -> "Latin1" [] c = 8 -> "UCS2")
+RegCodec(proto, c) ==
+  IF c \notin RegValid(proto) THEN ""
+  ELSE IF proto = "CMPP" THEN (CASE c = 0 -> "ASCII" [] c \in {8, 9} -> "UCS2" [] c = 15 -> "GB18030")
+  ELSE (CASE c = 0 -> "GSM 7-bit (Unpacked)" [] c = 99 -> "GSM 7-bit (Packed)" [] c = 1 -> "ASCII" [] c = 3 -> "LATIN1" [] c = 8 -> "UCS2")
+\* single-message limit and part size, in the units of the codec (septets for GSM 7-bit, octets otherwise)
+RegLimits(codec) == IF codec \in {"GSM 7-bit (Unpacked)", "GSM 7-bit (Packed)"} THEN <<160, 153>> ELSE <<140, 134>>
 =============================================================================
